@@ -337,6 +337,14 @@ def _num_eq(x, y, rel):
 def xref_errors(model):
     """Cross-reference / identity invariants of C02 (public API + _reaction sets)."""
     errs = []
+    # every reaction owns its rule object (an edit through one reaction must not reach another)
+    owners = {}
+    for r in model.reactions:
+        g = getattr(r, "gpr", None)
+        if g is not None and id(g) in owners:
+            errs.append(f"reactions {owners[id(g)]} and {r.id} share one gene rule object")
+        elif g is not None:
+            owners[id(g)] = r.id
     for lst, nm in ((model.reactions, "reaction"), (model.metabolites, "metabolite"), (model.genes, "gene"), (model.groups, "group")):
         ids = [x.id for x in lst]
         if len(set(ids)) != len(ids):
